@@ -5,7 +5,7 @@
 From Coq Require Import List ZArith Lia Bool Arith.
 From Coq Require Import ZifyBool ZifyNat.
 From Coq Require Import Strings.Byte.
-From WH Require Import lib.Bytes gen.Extracted model.Vaa model.P2PVerify.
+From WH Require Import lib.Bytes gen.Extracted gen.ExtractedP2P model.Vaa model.P2PVerify.
 Import ListNotations.
 Open Scope Z_scope.
 
